@@ -379,6 +379,40 @@ func runNyctTrips(c *Ctx) {
 			c.Violated("NYCT", fname, "start time derived from the trip id's origin time", p.pos(upd.Pos()), "start_time is never derived")
 		}
 	}
+	// the answer handed to the stale-trip filter is the descriptor's is_assigned flag, on every path that has the descriptor
+	if upd.Signature.Results().Len() == 1 {
+		fname := shortName(upd)
+		bad := ""
+		n := 0
+		checkVal := func(v ssa.Value, at *ssa.BasicBlock, pos string) {
+			n++
+			gs := guardStrings(b, at)
+			if k, isC := v.(*ssa.Const); isC {
+				if bv, isB := constBool(k); isB && !bv && hasGuard(gs, "-", "proto.HasExtension(", "E_NyctTripDescriptor") {
+					return
+				}
+				bad = "the constant " + canon(v) + " is returned at " + pos + " although the NYCT descriptor is present"
+				return
+			}
+			if e := b.bind(v); !strings.Contains(e, "proto:NyctTripDescriptor.IsAssigned") {
+				bad = "the value returned at " + pos + " is " + clip(e, 80) + ", not the descriptor's is_assigned"
+			}
+		}
+		for _, blk := range upd.Blocks {
+			ret, ok := blk.Instrs[len(blk.Instrs)-1].(*ssa.Return)
+			if !ok {
+				continue
+			}
+			if phi, isPhi := ret.Results[0].(*ssa.Phi); isPhi && phi.Block() == blk {
+				for i, e := range phi.Edges {
+					checkVal(e, blk.Preds[i], p.ipos(ret))
+				}
+			} else {
+				checkVal(ret.Results[0], blk, p.ipos(ret))
+			}
+		}
+		c.Check(bad == "" && n > 0, "NYCT", fname, "reports the descriptor's is_assigned", p.pos(upd.Pos()), fmt.Sprintf("%d returned values: false without the NYCT descriptor, GetIsAssigned() otherwise", n), bad+": the stale-trip filter then sees an assigned trip as unassigned (or the reverse)")
+	}
 	// vehicle descriptor only when assigned, id = train id
 	{
 		fname := shortName(upd)
@@ -496,40 +530,73 @@ func runNyctTrips(c *Ctx) {
 				}
 			}
 		}
+		// ShouldSkip: every value it can be given is `false` or the answer of the stale test; the stale test is asked only
+		// with the extension present and filtering enabled, about (is_assigned from updateTripOrVehicle, the trip's stop
+		// time updates, the feed time); and its answer is not dropped: the store that records it lies on every path from
+		// the test to a return, into the very result that is returned
 		var skipExpr string
+		okSkip := true
+		nStale := 0
+		checkStaleCall := func(call *ssa.Call, at *ssa.BasicBlock) {
+			nStale++
+			gs := guardStrings(b, at)
+			if !(hasGuard(gs, "+", "proto.HasExtension(", "E_NyctTripDescriptor") && hasGuard(gs, "+", "FilterStaleUnassignedTrips")) {
+				okSkip = false
+			}
+			a0 := b.bind(call.Call.Args[0])
+			a1 := b.bind(call.Call.Args[1])
+			if !strings.Contains(a0, "updateTripOrVehicle(") || !strings.Contains(a1, "proto:TripUpdate.StopTimeUpdate") || call.Call.Args[2] != ssa.Value(updTrip.Params[2]) {
+				okSkip = false
+			}
+		}
 		for _, fs := range collectFieldStores([]*ssa.Function{updTrip}, "extensions.UpdateTripResult") {
-			if fs.field == "ShouldSkip" {
-				skipExpr = b.bind(fs.store.Val)
+			if fs.field != "ShouldSkip" {
+				continue
 			}
-		}
-		okSkip := strings.Contains(skipExpr, "isStaleUnassignedTrip(") && strings.Contains(skipExpr, "const:false")
-		// the phi is false unless HasExtension && FilterStaleUnassignedTrips
-		var phi *ssa.Phi
-		for _, blk := range updTrip.Blocks {
-			for _, in := range blk.Instrs {
-				if ph, isPhi := in.(*ssa.Phi); isPhi && ph.Type().String() == "bool" {
-					phi = ph
-				}
-			}
-		}
-		if phi != nil {
-			for i, ed := range phi.Edges {
-				if call, isCall := ed.(*ssa.Call); isCall && staticCallee(call) == stale {
-					gs := guardStrings(b, phi.Block().Preds[i])
-					if !(hasGuard(gs, "+", "proto.HasExtension(", "E_NyctTripDescriptor") && hasGuard(gs, "+", "FilterStaleUnassignedTrips")) {
+			skipExpr = b.bind(fs.store.Val)
+			var leaves func(v ssa.Value, at *ssa.BasicBlock, d int)
+			leaves = func(v ssa.Value, at *ssa.BasicBlock, d int) {
+				switch x := v.(type) {
+				case *ssa.Phi:
+					if d > 6 {
+						okSkip = false
+						return
+					}
+					for i, ed := range x.Edges {
+						leaves(ed, x.Block().Preds[i], d+1)
+					}
+				case *ssa.Const:
+					if bv, isB := constBool(x); !isB || bv {
 						okSkip = false
 					}
-					// arguments: (isAssigned from updateTripOrVehicle, the trip's stop time updates, feed time)
-					a0 := b.bind(call.Call.Args[0])
-					a1 := b.bind(call.Call.Args[1])
-					if !strings.Contains(a0, "updateTripOrVehicle(") || !strings.Contains(a1, "proto:TripUpdate.StopTimeUpdate") || call.Call.Args[2] != ssa.Value(updTrip.Params[2]) {
+				case *ssa.Call:
+					if staticCallee(x) != stale {
 						okSkip = false
+						return
 					}
-				} else if k, isC := ed.(*ssa.Const); !isC || k.Value == nil {
+					checkStaleCall(x, at)
+					// the answer reaches the returned result on every path
+					stBlk, callBlk := fs.store.Block(), x.Block()
+					base := addrRoot(fs.store.Addr)
+					for _, blk := range updTrip.Blocks {
+						ret, isRet := blk.Instrs[len(blk.Instrs)-1].(*ssa.Return)
+						if !isRet || !canReach(callBlk, blk) {
+							continue
+						}
+						if callBlk != stBlk && canReachAvoiding(callBlk, blk, stBlk) {
+							okSkip = false
+						}
+						if ld, isLd := ret.Results[0].(*ssa.UnOp); !isLd || addrRoot(ld.X) != base {
+							okSkip = false
+						}
+					}
+				default:
 					okSkip = false
 				}
 			}
-		} else {
+			leaves(fs.store.Val, fs.store.Block(), 0)
+		}
+		if nStale == 0 {
 			okSkip = false
 		}
 		c.Check(okSkip, "NYCT", shortName(updTrip), "a trip is dropped only with NYCT data, with filtering enabled, when stale", p.pos(updTrip.Pos()), "ShouldSkip = HasExtension && FilterStaleUnassignedTrips && isStaleUnassignedTrip(isAssigned, stop time updates, feed time)", "ShouldSkip is computed differently: "+clip(skipExpr, 200))
@@ -786,6 +853,72 @@ func runNyctAlerts(c *Ctx) {
 	if nSkip == 0 {
 		c.Violated("ALRT", fname, "timetabled no-service alerts can be skipped", p.pos(ua.Pos()), "no path drops timetabled no-service alerts")
 	}
+	// the alert is kept (false) only after every informed entity has been examined: an earlier `return false` skips the
+	// effect mapping and the no-service decision for alerts that need them
+	{
+		var entityLoops []*Loop
+		for _, l := range naturalLoops(ua) {
+			for lb := range l.Blocks {
+				for _, in := range lb.Instrs {
+					if ia, isIA := in.(*ssa.IndexAddr); isIA && rangeIndexSeq(ia.Index) != nil && strings.Contains(b.bind(ia.X), "proto:Alert.InformedEntity") {
+						entityLoops = append(entityLoops, l)
+					}
+				}
+			}
+		}
+		early := ""
+		nKeep := 0
+		eachReturned(ua, 0, func(v ssa.Value, at *ssa.BasicBlock, ret *ssa.Return) {
+			k, isC := v.(*ssa.Const)
+			if !isC {
+				return
+			}
+			if bv, _ := constBool(k); bv {
+				return
+			}
+			nKeep++
+			after := false
+			for _, l := range entityLoops {
+				if l.Header.Dominates(at) && !l.Blocks[at] && !(len(l.Header.Succs) > 0 && l.Blocks[l.Header.Succs[0]] && l.Header.Succs[0].Dominates(at)) {
+					after = true
+				}
+			}
+			if !after {
+				early = p.ipos(ret)
+			}
+		})
+		if len(entityLoops) > 0 {
+			c.Check(early == "" && nKeep > 0, "ALRT", fname, "alerts are kept only after all informed entities were examined", p.pos(ua.Pos()), fmt.Sprintf("all %d `false` answers come after the loop over the alert's informed entities", nKeep), "the alert is answered `false` at "+early+" before its informed entities were examined: effect mapping and the timetabled no-service decision are skipped for it")
+		}
+	}
+	// an alert is treated as a non-elevator alert only because its id does not have the elevator form
+	{
+		bad := ""
+		n := 0
+		eachReturned(ue, 0, func(v ssa.Value, at *ssa.BasicBlock, ret *ssa.Return) {
+			k, isC := v.(*ssa.Const)
+			if !isC {
+				return
+			}
+			if bv, _ := constBool(k); bv {
+				return
+			}
+			n++
+			gs := guardStrings(b, at)
+			if hasGuard(gs, "+", "FindStringSubmatch(global:<*regexp.Regexp>", "== const:nil") || hasGuard(gs, "-", "FindStringSubmatch(global:<*regexp.Regexp>", "!= const:nil") ||
+				hasGuard(gs, "+", "len(", "FindStringSubmatch(global:<*regexp.Regexp>", "== const:0") {
+				// the only other conditions on the way may be conjuncts of the same decision; a `false` that does not
+				// depend on the match at all is what is excluded
+				return
+			}
+			bad = p.ipos(ret)
+		})
+		if n > 0 || bad != "" {
+			c.Check(bad == "", "ALRT", shortName(ue), "ids of the elevator form are always handled as elevator alerts", p.pos(ue.Pos()), fmt.Sprintf("all %d `false` answers are under a failed match of the elevator id pattern", n), "`false` is answered at "+bad+" without the id having failed the elevator pattern: an elevator alert can fall through to the general path")
+		} else {
+			c.Violated("ALRT", shortName(ue), "ids of the elevator form are always handled as elevator alerts", p.pos(ue.Pos()), "no path answers `false`: every alert is treated as an elevator alert")
+		}
+	}
 	// Y2: metadata only when requested
 	for _, fs := range collectFieldStores([]*ssa.Function{ua}, "proto.TranslatedString") {
 		if fs.field != "Translation" {
@@ -834,20 +967,26 @@ func runNyctAlerts(c *Ctx) {
 	// Y6: priority extraction
 	{
 		fn := shortName(gp)
-		var ret *ssa.Return
-		for _, blk := range gp.Blocks {
-			if r, ok := blk.Instrs[len(blk.Instrs)-1].(*ssa.Return); ok {
-				if k, isC := r.Results[1].(*ssa.Const); isC {
-					if bv, _ := constBool(k); bv {
-						ret = r
-					}
+		// every (priority, true) the function can return: the priority is the parsed tail
+		ok := false
+		nTrue := 0
+		for _, tup := range returnedTuples(gp) {
+			if len(tup) != 2 {
+				continue
+			}
+			if k, isC := tup[1].(*ssa.Const); isC {
+				if bv, _ := constBool(k); !bv {
+					continue
 				}
 			}
-		}
-		ok := false
-		if ret != nil {
-			e := b.bind(ret.Results[0])
-			ok = strings.Contains(e, "strconv.Atoi(slice(proto:MercuryEntitySelector.SortOrder?,(strings.LastIndex(proto:MercuryEntitySelector.SortOrder?,const:\":\") + const:1):)")
+			nTrue++
+			e := b.bind(tup[0])
+			good := strings.Contains(e, "strconv.Atoi(slice(proto:MercuryEntitySelector.SortOrder?,(strings.LastIndex(proto:MercuryEntitySelector.SortOrder?,const:\":\") + const:1):)")
+			if nTrue == 1 {
+				ok = good
+			} else {
+				ok = ok && good
+			}
 		}
 		c.Check(ok, "ALRT", fn, "priority = number after the last ':' of the sort order", p.pos(gp.Pos()), "Atoi(sortOrder[LastIndex(sortOrder, \":\")+1:])", "the Mercury priority is not parsed from the tail of the sort order")
 	}
@@ -876,6 +1015,7 @@ func runNyctAlerts(c *Ctx) {
 				src = cl
 			}
 			nb := newBinder(c) // the expected forms are written without helper bodies
+			nb.catForm = true  // and without regard to how the string is put together (Sprintf or +)
 			for _, alt := range storeAlternatives(nb, src) {
 				gs, val := alt.guards, alt.val
 				switch {
@@ -888,9 +1028,9 @@ func runNyctAlerts(c *Ctx) {
 				}
 			}
 			m := "regexp.Regexp.FindStringSubmatch(global:<*regexp.Regexp>,deref(param:<*string>))"
-			wantStation := `fmt.Sprintf(const:"%s#EL%s",[` + m + `[const:1], ` + m + `[const:3]])`
-			wantComplex := `fmt.Sprintf(const:"elevator:EL%s",[` + m + `[const:3]])`
-			wantDefault := `fmt.Sprintf(const:"%s#EL%s",[(` + m + `[const:1] + ` + m + `[const:2]), ` + m + `[const:3]])`
+			wantStation := `cat[` + m + `[const:1], const:"#EL", ` + m + `[const:3]]`
+			wantComplex := `cat[const:"elevator:EL", ` + m + `[const:3]]`
+			wantDefault := `cat[` + m + `[const:1], ` + m + `[const:2], const:"#EL", ` + m + `[const:3]]`
 			okIDs := got["station"] == wantStation && got["complex"] == wantComplex && got["default"] == wantDefault
 			c.Check(okIDs, "ALRT", efn, "group id by deduplication policy", p.ipos(st), "station: <station>#EL<elevator>; complex: elevator:EL<elevator>; none: <platform>#EL<elevator>", fmt.Sprintf("group ids are station=%q complex=%q default=%q", clip(got["station"], 90), clip(got["complex"], 90), clip(got["default"], 90)))
 		}
@@ -901,7 +1041,10 @@ func runNyctAlerts(c *Ctx) {
 			continue
 		}
 		got := map[string]string{}
-		for _, alt := range storeAlternatives(b, fs.store.Val) {
+		cb := newBinder(c)
+		cb.showBodies = true
+		cb.catForm = true
+		for _, alt := range storeAlternatives(cb, fs.store.Val) {
 			if hasGuard(alt.guards, "+", "ElevatorAlertsInformUsingStationIDs") {
 				got["station"] = alt.val
 			} else {
@@ -909,7 +1052,7 @@ func runNyctAlerts(c *Ctx) {
 			}
 		}
 		m := "regexp.Regexp.FindStringSubmatch(global:<*regexp.Regexp>,deref(param:<*string>))"
-		c.Check(got["station"] == m+"[const:1]" && got["platform"] == "("+m+"[const:1] + "+m+"[const:2])", "ALRT", efn, "informed stop = station id when configured, else platform id", p.ipos(fs.store), "station = group 1; platform = group 1 + group 2", fmt.Sprintf("informed ids: %v", got))
+		c.Check(got["station"] == m+"[const:1]" && got["platform"] == "cat["+m+"[const:1], "+m+"[const:2]]", "ALRT", efn, "informed stop = station id when configured, else platform id", p.ipos(fs.store), "station = group 1; platform = group 1 + group 2", fmt.Sprintf("informed ids: %v", got))
 	}
 	// Y4: duplicate test over all informed entities of the group, append only when absent. The test is a flag set in a
 	// scan of the group's informed entities, or a predicate helper that performs that scan
@@ -959,6 +1102,29 @@ func runNyctAlerts(c *Ctx) {
 					}
 					appendGuarded = true
 					loops := scanLoops(h)
+					// or the helper is handed the list itself: loops that visit every element of a slice parameter which
+					// this call binds to the very list that is appended to
+					listParam := false
+					for _, l := range naturalLoops(h) {
+						for blk := range l.Blocks {
+							for _, in := range blk.Instrs {
+								ia, ok := in.(*ssa.IndexAddr)
+								if !ok {
+									continue
+								}
+								pa, isParam := ia.X.(*ssa.Parameter)
+								if r, _ := isRangeIndexOver(ia.Index, ia.X); !r || !isParam {
+									continue
+								}
+								if j := paramIndex(pa); j >= 0 && j < len(x.Call.Args) {
+									if ld, isLd := x.Call.Args[j].(*ssa.UnOp); isLd && ld.Op == token.MUL && canon(ld.X) == canon(fs.store.Addr) {
+										loops = append(loops, l)
+										listParam = true
+									}
+								}
+							}
+						}
+					}
 					okH, nTrue := len(loops) > 0, 0
 					for _, blk := range h.Blocks {
 						ret, isRet := blk.Instrs[len(blk.Instrs)-1].(*ssa.Return)
@@ -985,7 +1151,7 @@ func runNyctAlerts(c *Ctx) {
 						}
 					}
 					// the scanned alert is the one appended to
-					scanned := false
+					scanned := listParam
 					for _, a := range x.Call.Args {
 						if strings.HasPrefix(canon(fs.store.Addr), canon(a)+".") {
 							scanned = true
@@ -1422,4 +1588,56 @@ func swapByAlternatives(b *binder, v ssa.Value) bool {
 		pairs[from] = to
 	}
 	return len(pairs) == 2 && pairs['N'] == 'S' && pairs['S'] == 'N'
+}
+
+// eachReturned calls visit for every value result idx of fn can take, with the block whose guards apply to it (the
+// predecessor for a value merged by a phi in the returning block).
+func eachReturned(fn *ssa.Function, idx int, visit func(v ssa.Value, at *ssa.BasicBlock, ret *ssa.Return)) {
+	for _, blk := range fn.Blocks {
+		ret, ok := blk.Instrs[len(blk.Instrs)-1].(*ssa.Return)
+		if !ok || idx >= len(ret.Results) {
+			continue
+		}
+		if phi, isPhi := ret.Results[idx].(*ssa.Phi); isPhi && phi.Block() == blk {
+			for i, e := range phi.Edges {
+				visit(e, blk.Preds[i], ret)
+			}
+		} else {
+			visit(ret.Results[idx], blk, ret)
+		}
+	}
+}
+
+// returnedTuples: the result tuples fn can return. Results merged by phis in the returning block are taken edge by
+// edge (all phis of that block together), so that a flag and the value it qualifies stay paired.
+func returnedTuples(fn *ssa.Function) [][]ssa.Value {
+	var out [][]ssa.Value
+	for _, blk := range fn.Blocks {
+		ret, ok := blk.Instrs[len(blk.Instrs)-1].(*ssa.Return)
+		if !ok {
+			continue
+		}
+		split := false
+		for _, r := range ret.Results {
+			if phi, isPhi := r.(*ssa.Phi); isPhi && phi.Block() == blk {
+				split = true
+			}
+		}
+		if !split {
+			out = append(out, append([]ssa.Value{}, ret.Results...))
+			continue
+		}
+		for i := range blk.Preds {
+			var tup []ssa.Value
+			for _, r := range ret.Results {
+				if phi, isPhi := r.(*ssa.Phi); isPhi && phi.Block() == blk {
+					tup = append(tup, phi.Edges[i])
+				} else {
+					tup = append(tup, r)
+				}
+			}
+			out = append(out, tup)
+		}
+	}
+	return out
 }
